@@ -30,6 +30,9 @@ SIM == [Bp("SIM", C1,
 \* the government is the user's own bare Sector (as in the package's external-sector example), taxes are paid to it
 SIMPLAIN == [SIM EXCEPT !.name = "SIMPLAIN", !.freeq = {1, 4}, !.sectors[1].kind = "PlainGovernment"]
 
+\* the government is declared through the library's alias class DoNothingGovernment
+SIMDN == [SIM EXCEPT !.name = "SIMDN", !.freeq = {1, 2, 6}, !.sectors[1].kind = "DoNothingGovernment"]
+
 SIMEX == [SIM EXCEPT !.freeq = {2, 3, 5}, !.name = "SIMEX", !.sectors[2].kind = "HouseholdWithExpectations"]
 
 SIMCAP == [Bp("SIMCAP", C1,
@@ -367,6 +370,6 @@ TWOCAPS == [Bp("TWOCAPS", C1,
               Sd("C", "TF", "TaxFlow"), Sd("C", "LAB", "Market"), Sd("C", "GOOD", "Market") >>, {3, 4, 5, 8})
         EXCEPT !.freeq = {4, 5}, !.exo = << Exo(1, "DEM_GOOD") >>, !.wellformed = FALSE]
 
-AllBlueprints == {TAXOWN0, AIDX, TWOSUPRULE, NOSUPRULE, FUNDDEP, SIMXG, CASECODES, SIMTRE, IMPORT2, ROWAID, TAXOWN, GOLDCBIMP, SIMINF, SELFBUY, TAXBUS, TWOCAPS, RINGFAN, SIMPLAIN, SIMBOOK, SIMEX1BOOK, PCBOOK, REGBOOK, REG2BOOK, MULTIX, TRIREG, TWOBUSX, RING3, REG2, GOLDCB, TWOBUS, TWOGIFTS, SIMBOND, IMPORTRES, NOEXT3, SIMX, SIMR, SIMEXR, JOIN2, JOIN2X, GOLD2, GOLDNOEXT, SIM, SIMEX, SIMCAP, SIMMARGIN, SIMMON, SIMDEP, PC, MULTI, FED, GIFT, GIFT2, IMPORT, NOEXT1, NOEXT2, NOSUP, TWOSUP}
+AllBlueprints == {SIMDN, TAXOWN0, AIDX, TWOSUPRULE, NOSUPRULE, FUNDDEP, SIMXG, CASECODES, SIMTRE, IMPORT2, ROWAID, TAXOWN, GOLDCBIMP, SIMINF, SELFBUY, TAXBUS, TWOCAPS, RINGFAN, SIMPLAIN, SIMBOOK, SIMEX1BOOK, PCBOOK, REGBOOK, REG2BOOK, MULTIX, TRIREG, TWOBUSX, RING3, REG2, GOLDCB, TWOBUS, TWOGIFTS, SIMBOND, IMPORTRES, NOEXT3, SIMX, SIMR, SIMEXR, JOIN2, JOIN2X, GOLD2, GOLDNOEXT, SIM, SIMEX, SIMCAP, SIMMARGIN, SIMMON, SIMDEP, PC, MULTI, FED, GIFT, GIFT2, IMPORT, NOEXT1, NOEXT2, NOSUP, TWOSUP}
 QuickBlueprints == { [b EXCEPT !.free = b.freeq] : b \in AllBlueprints }
 =============================================================================
